@@ -346,3 +346,45 @@ def measured_at_call(m, callee, ai, call):
         nxt = call.a[ai + 1] if ai + 1 < len(call.a) else None
         return isinstance(nxt, list) and len(nxt) >= 2 and nxt[0] == 'i' and nxt[1] == (1 << 64) - 1
     return True
+
+
+def _operand_ids(a, out):
+    if isinstance(a, (list, tuple)):
+        if len(a) >= 2 and a[0] == 'v' and isinstance(a[1], int):
+            out.add(a[1])
+        else:
+            for x in a:
+                _operand_ids(x, out)
+    return out
+
+
+def tainted_insts(fn, param_index):
+    """SSA forward closure of a parameter inside its function: ids of the instructions whose value is computed from it
+    (the parameter's own id included)."""
+    t = set([param_index])
+    changed = True
+    while changed:
+        changed = False
+        for i in fn.all_insts():
+            if i.id in t:
+                continue
+            if _operand_ids(i.a, set()) & t:
+                t.add(i.id)
+                changed = True
+    return t
+
+
+def taint_uses(fn, param_index):
+    """(blocks in which a value computed from the parameter decides a branch / switch / select, call instructions that are handed
+    such a value)."""
+    t = tainted_insts(fn, param_index)
+    blocks, calls = set(), []
+    for i in fn.all_insts():
+        ops = _operand_ids(i.a, set())
+        if not (ops & t):
+            continue
+        if i.op in ('br', 'switch', 'select'):
+            blocks.add(i.block)
+        elif i.op in ('call', 'invoke'):
+            calls.append(i)
+    return blocks, calls
